@@ -16,7 +16,7 @@ import re
 from fractions import Fraction
 from lib import mvtext as mv
 
-REF_MAX_COUNT = 100000
+REF_MAX_COUNT = 70000
 _JSON_NUMBER = re.compile(rb"^-?(0|[1-9][0-9]*)(\.[0-9]+)?([eE][+-]?[0-9]+)?$")
 _BASE10 = re.compile(rb"^-?[0-9]+$")
 _INT_W = {0x69: 1, 0x55: 1, 0x49: 2, 0x6c: 4, 0x4c: 8}      # i U I l L
@@ -274,18 +274,7 @@ def _lengths(n, mode="full"):
     return out[:1] if mode == "min" else out
 
 
-def _product(lists, limit):
-    res = [b""]
-    for alts in lists:
-        nxt = []
-        for pre in res:
-            for a in alts:
-                if len(pre) + len(a) <= limit:
-                    nxt.append(pre + a)
-        res = nxt
-        if not res:
-            break
-    return res
+_product = mv.product
 
 
 def _forms(v, mode, limit, child_mode, modes=None, path=()):
@@ -337,12 +326,16 @@ def _forms(v, mode, limit, child_mode, modes=None, path=()):
     return out
 
 
+def _grand(child_mode):
+    return "reduced" if child_mode == "full" else ("one" if child_mode == "one" else "min")
+
+
 def _with_marker(forms, limit):
     return [bytes([m]) + p for m, ps in sorted(forms.items()) for p in ps if 1 + len(p) <= limit]
 
 
 def _array_bodies(items, mode, limit, child_mode, modes=None, path=()):
-    forms = [_forms(e, child_mode, limit, "min" if child_mode != "full" else "reduced", modes, path + (i,)) for i, e in enumerate(items)]
+    forms = [_forms(e, child_mode, limit, _grand(child_mode), modes, path + (i,)) for i, e in enumerate(items)]
     marked = [_with_marker(f, limit) for f in forms]
     out = _product(marked + [[b"]"]], limit)
     if mode == "one":
@@ -369,7 +362,7 @@ def _array_bodies(items, mode, limit, child_mode, modes=None, path=()):
 def _object_bodies(items, mode, limit, child_mode, modes=None, path=()):
     lm = "min" if mode == "min" else "full"
     km = "min" if child_mode in ("min", "one") else "full"
-    forms = [_forms(v, child_mode, limit, "min" if child_mode != "full" else "reduced", modes, path + (i, 'v')) for i, (k, v) in enumerate(items)]
+    forms = [_forms(v, child_mode, limit, _grand(child_mode), modes, path + (i, 'v')) for i, (k, v) in enumerate(items)]
     keys = []
     for i, (k, v) in enumerate(items):
         kmode = km if modes is None else ("min" if modes.get(path + (i, 'k'), "one") == "one" else "full")
